@@ -195,7 +195,7 @@ fn forged_before(hist: &[Step], id: u8) -> bool {
         match s.act {
             Act::Send { id: i, .. } if i == id => forged = false,
             Act::Resp { id: i, auth, .. } if i == id => {
-                if matches!(auth, Auth::Sha1Flipped(_) | Auth::Sha256Flipped(_) | Auth::MixedSha1Good(_) | Auth::Sha1WireLenFp(_) | Auth::Sha256WireLenFp(_) | Auth::None | Auth::Sha1(2) | Auth::Sha1(0)) {
+                if matches!(auth, Auth::Sha1Flipped(_) | Auth::Sha256Flipped(_) | Auth::MixedSha1Good(_) | Auth::Sha1WireLenFp(_) | Auth::Sha256WireLenFp(_) | Auth::None | Auth::Sha1(2) | Auth::Sha1(0)) || matches!(auth, Auth::Sha256Len(_, n) if !matches!(n, 16 | 20 | 24 | 28 | 32)) {
                     forged = true;
                 }
             }
@@ -709,7 +709,7 @@ pub fn differential_variants(tcp: bool, steps: &[Step]) -> Vec<(String, bool, St
         out.push(("interleaved with an unrelated agent".to_string(), inter == reference, first_diff(&reference, &inter)));
         // under a tracing subscriber (the ambient dispatcher of the thread): arguments of the
         // library's log statements are only evaluated then, and formatting runs its Debug impls
-        for (name, level) in [("TRACE", tracing::Level::TRACE), ("DEBUG", tracing::Level::DEBUG)] {
+        for (name, level) in [("TRACE", tracing::Level::TRACE), ("DEBUG", tracing::Level::DEBUG), ("INFO", tracing::Level::INFO), ("WARN", tracing::Level::WARN), ("ERROR", tracing::Level::ERROR)] {
             let d = sink_dispatch(level);
             let logged = tracing::dispatcher::with_default(&d, || observe(tcp, &steps, base));
             out.push((format!("replayed under a {name} tracing subscriber"), logged == reference, first_diff(&reference, &logged)));
@@ -766,11 +766,14 @@ pub fn differential_variants(tcp: bool, steps: &[Step]) -> Vec<(String, bool, St
     out
 }
 
+/// The maximum levels a subscriber is given: with INFO the library's spans are recorded and its debug! /
+/// trace! events are not (their arguments are then never evaluated), with WARN / ERROR no span is current.
+pub const LEVELS: [tracing::Level; 5] = [tracing::Level::TRACE, tracing::Level::DEBUG, tracing::Level::INFO, tracing::Level::WARN, tracing::Level::ERROR];
+
 pub fn sink_dispatch(level: tracing::Level) -> tracing::Dispatch {
     use std::sync::OnceLock;
-    static T: OnceLock<tracing::Dispatch> = OnceLock::new();
-    static D: OnceLock<tracing::Dispatch> = OnceLock::new();
-    let cell = if level == tracing::Level::TRACE { &T } else { &D };
+    static CELLS: [OnceLock<tracing::Dispatch>; 5] = [OnceLock::new(), OnceLock::new(), OnceLock::new(), OnceLock::new(), OnceLock::new()];
+    let cell = &CELLS[LEVELS.iter().position(|l| *l == level).unwrap_or(0)];
     cell.get_or_init(|| tracing::Dispatch::new(tracing_subscriber::fmt().with_max_level(level).with_writer(std::io::sink).finish())).clone()
 }
 
@@ -856,7 +859,7 @@ fn differential(s: &Node, acc: &mut Acc) {
             });
         }
     }
-    acc.outcome("history replayed under 10-12 variants");
+    acc.outcome("history replayed under 13-15 variants");
 }
 
 pub fn replay(prop: &str, rp: &Value) -> Vec<Violation> {
@@ -903,7 +906,9 @@ pub fn replay(prop: &str, rp: &Value) -> Vec<Violation> {
             v.signature = format!("{}/drain", v.signature);
             acc.violation(v);
         }
-        if !breaches.is_empty() {
+        // (schedule paths go on after a breach that belongs to another property, see schedule::run_path2)
+        let go_on = rp.get("continue_foreign").is_some() && breaches.iter().all(|b| b.property != prop);
+        if !breaches.is_empty() && !go_on {
             break;
         }
     }
